@@ -124,6 +124,20 @@ impl Model {
         }
         e
     }
+    /// the same model in energy units smaller by the exact factor 2^-k (f64 and rationals stay exact)
+    fn scaled(&self, k: i32) -> Model {
+        let c = 2f64.powi(-k);
+        Model { edges: self.edges.iter().map(|(e, j)| (*e, j * c)).collect(), biases: self.biases.iter().map(|b| b * c).collect() }
+    }
+    /// energy scale of the model (for relative tolerances): sum |J| + sum |b|, 1 if all are zero
+    fn escale(&self) -> f64 {
+        let t: f64 = self.total_abs_j() + self.biases.iter().map(|b| b.abs()).sum::<f64>();
+        if t > 0.0 {
+            t
+        } else {
+            1.0
+        }
+    }
     /// total importance weight: sum of |J|
     fn total_abs_j(&self) -> f64 {
         self.edges.iter().map(|e| e.1.abs()).sum()
@@ -261,6 +275,13 @@ fn usize_word(k: u64, n: u64) -> u64 {
 // traj
 // ------------------------------------------------------------------------------------------------
 fn traj_case(m: &Model, beta: f64, imp: bool, ns: Option<usize>, ne: Option<usize>, nw: Option<usize>, basic: bool, s0: &[bool], nsteps: usize, script: Vec<u64>, seed: u64) {
+    traj_case_x(m, beta, imp, ns, ne, nw, basic, s0, nsteps, script, seed, None);
+}
+
+/// `twin`: states of the same run in other energy units ((J,h,beta) -> (cJ, ch, beta/c), same RNG): the
+/// trajectory must be bit-identical (scale invariance of the Boltzmann law). Returns the states visited.
+fn traj_case_x(m: &Model, beta: f64, imp: bool, ns: Option<usize>, ne: Option<usize>, nw: Option<usize>, basic: bool, s0: &[bool], nsteps: usize, script: Vec<u64>, seed: u64, twin: Option<(i32, Vec<Vec<bool>>)>) -> Option<Vec<Vec<bool>>> {
+    let tol = 1e-9 * m.escale();
     // the harness forces the kind of the first step with its first word: a worm step on a graph without
     // biases must leave get_energy() unchanged (the worm closes at the coupling energy it started from, or is undone)
     let first_is_worm = !basic && script.first() == Some(&u8_word(2, 3));
@@ -273,6 +294,7 @@ fn traj_case(m: &Model, beta: f64, imp: bool, ns: Option<usize>, ne: Option<usiz
     let r = catch(move || {
         let mut g = mm.graph(&s0v, rng, imp);
         let mut outs = vec![];
+        let mut visited: Vec<Vec<bool>> = vec![];
         let mut oracle: Result<(), String> = Ok(());
         for step in 0..nsteps {
             g.do_time_step(beta, ns, ne, nw, Some(basic)).unwrap();
@@ -282,15 +304,24 @@ fn traj_case(m: &Model, beta: f64, imp: bool, ns: Option<usize>, ne: Option<usiz
             if s.len() != mm.n() && oracle.is_ok() {
                 oracle = Err(format!("step {}: number of spins changed from {} to {}", step, mm.n(), s.len()));
             }
-            if (e - d).abs() > 1e-9 && oracle.is_ok() {
-                oracle = Err(format!("step {}: get_energy()={} but direct sum over edges and biases={} at state {}", step, e, d, bits(&s)));
+            if (e - d).abs() > tol && oracle.is_ok() {
+                oracle = Err(format!("step {}: get_energy()={:e} but direct sum over edges and biases={:e} at state {}", step, e, d, bits(&s)));
             }
-            if step == 0 && first_is_worm && zero_bias && (e - e_start).abs() > 1e-9 && oracle.is_ok() {
-                oracle = Err(format!("worm step without biases changed get_energy() from {} to {} (state {} -> {})", e_start, e, bits(&s0v), bits(&s)));
+            if step == 0 && first_is_worm && zero_bias && (e - e_start).abs() > tol && oracle.is_ok() {
+                oracle = Err(format!("worm step without biases changed get_energy() from {:e} to {:e} (state {} -> {})", e_start, e, bits(&s0v), bits(&s)));
+            }
+            if let Some((k, want)) = &twin {
+                if oracle.is_ok() && want.get(step) != Some(&s) {
+                    oracle = Err(format!(
+                        "scale invariance: step {} gives state {} but the same run (same RNG words) with J, h multiplied by 2^{} and beta divided by it gives {}",
+                        step, bits(&s), k, want.get(step).map(|w| bits(w)).unwrap_or_default()
+                    ));
+                }
             }
             outs.push(format!("{} {}", bits(&s), rat(e)));
+            visited.push(s);
         }
-        (outs, oracle)
+        (outs, oracle, visited)
     });
     let words = handle.log();
     let input = format!(
@@ -307,10 +338,20 @@ fn traj_case(m: &Model, beta: f64, imp: bool, ns: Option<usize>, ne: Option<usiz
         list(&words)
     );
     match r {
-        Ok((outs, oracle)) => emit(true, &input, &format!("{} ok", outs.join(" ")), Some(oracle)),
-        Err(p) => emit(true, &input, "PANIC", Some(Err(format!("do_time_step panicked: {}", p)))),
+        Ok((outs, oracle, visited)) => {
+            emit(true, &input, &format!("{} ok", outs.join(" ")), Some(oracle));
+            Some(visited)
+        }
+        Err(p) => {
+            emit(true, &input, "PANIC", Some(Err(format!("do_time_step panicked: {}", p))));
+            None
+        }
     }
 }
+
+/// exponents of the small-unit stream: energies in units of 2^-k (k <= 50 keeps every non-zero worm energy
+/// difference of the k/8 couplings above the code's absolute tolerance f64::EPSILON = 2^-52)
+const SCALES: [i32; 4] = [20, 36, 45, 50];
 
 fn mode_traj(a: &Args, g: &mut SplitMix64) {
     let ncases = if a.thorough { 30000 } else { 2000 };
@@ -350,7 +391,18 @@ fn mode_traj(a: &Args, g: &mut SplitMix64) {
         if imp {
             stat("traj_importance", 1);
         }
-        traj_case(&m, beta, imp, ns, ne, nw, basic, &s0, nsteps, script, g.next());
+        let seed = g.next();
+        let visited = traj_case_x(&m, beta, imp, ns, ne, nw, basic, &s0, nsteps, script.clone(), seed, None);
+        // small-unit twin: every worm-first case and a quarter of the others
+        if c as u64 % t == 2 || g.chance(1, 4) {
+            if let Some(v) = visited {
+                let k = *g.pick(&SCALES);
+                if beta * 2f64.powi(k) < 2f64.powi(58) {
+                    stat(&format!("traj_small_units_2^-{}", k), 1);
+                    traj_case_x(&m.scaled(k), beta * 2f64.powi(k), imp, ns, ne, nw, basic, &s0, nsteps, script, seed, Some((k, v)));
+                }
+            }
+        }
     }
 }
 
@@ -374,6 +426,14 @@ fn mode_thr(a: &Args, g: &mut SplitMix64) {
         let shape = g.below(4);
         let (m, iso) = gen_model_iso(g, n, shape);
         let beta = g.dyadic(0, 3, 8);
+        // a quarter of the cases in small energy units (J, h times 2^-k, beta times 2^k)
+        let (m, beta) = if g.chance(1, 4) {
+            let k = *g.pick(&SCALES);
+            stat("thr_small_units", 1);
+            (m.scaled(k), beta * 2f64.powi(k))
+        } else {
+            (m, beta)
+        };
         let s0 = rand_state(g, n);
         let kind = g.below(2);
         let (target, count) = if kind == 0 {
@@ -829,8 +889,8 @@ fn worm_conservation_oracle(m: &Model, k: &[Vec<f64>]) -> Result<(), String> {
     let name = |a: usize| -> String { (0..n).map(|i| if (a >> (n - 1 - i)) & 1 == 1 { '1' } else { '0' }).collect() };
     for a in 0..e.len() {
         for b in 0..e.len() {
-            if k[a][b] > 1e-12 && (e[a] - e[b]).abs() > 1e-9 {
-                return Err(format!("worm update without biases goes {}->{} with probability {:.6} although get_energy differs: {} vs {}", name(a), name(b), k[a][b], e[a], e[b]));
+            if k[a][b] > 1e-12 && (e[a] - e[b]).abs() > 1e-9 * m.escale() {
+                return Err(format!("worm update without biases goes {}->{} with probability {:.6} although get_energy differs: {:e} vs {:e}", name(a), name(b), k[a][b], e[a], e[b]));
             }
         }
     }
@@ -921,6 +981,13 @@ fn mode_kern(a: &Args, g: &mut SplitMix64) {
             small_model(g, n, imp)
         };
         let beta = g.dyadic(0, 2, 4);
+        let (m, beta) = if c % 5 == 4 {
+            let k = *g.pick(&SCALES);
+            stat("kern_small_units", 1);
+            (m.scaled(k), beta * 2f64.powi(k))
+        } else {
+            (m, beta)
+        };
         kern_case(&m, beta, imp, kind as u64, true);
     }
 }
@@ -948,6 +1015,14 @@ fn mode_kern_worm(a: &Args, g: &mut SplitMix64) {
         if zero_bias {
             stat("kern_worm_zero_bias", 1);
         }
+        // a third of the worm kernels in small energy units
+        let (m, beta) = if c % 3 == 1 {
+            let k = *g.pick(&SCALES);
+            stat(&format!("kern_worm_small_units_2^-{}", k), 1);
+            (m.scaled(k), beta * 2f64.powi(k))
+        } else {
+            (m, beta)
+        };
         kern_case(&m, beta, false, 2, false);
     }
 }
@@ -985,6 +1060,16 @@ fn mode_witness_asym() {
     // worm selection asymmetry: triangle 0-1-2 plus pendant spin 3, J = 1, no biases
     let m = Model { edges: vec![((0, 1), 1.0), ((1, 2), 1.0), ((2, 0), 1.0), ((2, 3), 1.0)], biases: vec![0.0; 4] };
     kern_case(&m, 0.5, false, 2, true);
+}
+
+/// worm tolerance witness: the worm compares energy differences with the ABSOLUTE tolerance f64::EPSILON = 2^-52;
+/// with couplings below 2^-53 every move looks free. Chain 0-1-2, J = 2^-60, no biases (and J = 1 as contrast).
+fn mode_witness_tiny() {
+    let j = 2f64.powi(-60);
+    let m = Model { edges: vec![((0, 1), j), ((1, 2), j)], biases: vec![0.0; 3] };
+    kern_case(&m, 1.0, false, 2, false);
+    let m1 = Model { edges: vec![((0, 1), 1.0), ((1, 2), 1.0)], biases: vec![0.0; 3] };
+    kern_case(&m1, 1.0, false, 2, false);
 }
 
 /// regression for fix aaa8c52 (was finding F18): a graph without edges (biases only); the edge move is a no-op
@@ -1112,7 +1197,7 @@ fn api_case(m: &Model, beta: f64, ops: &[String], seed: u64) {
             if oracle.is_ok() {
                 if st.len() != mm.n() {
                     oracle = Err(format!("after op {} ({}): {} spins instead of {}", k, op, st.len(), mm.n()));
-                } else if (e1 - d).abs() > 1e-9 || (e2 - d).abs() > 1e-9 {
+                } else if (e1 - d).abs() > 1e-9 * mm.escale() || (e2 - d).abs() > 1e-9 * mm.escale() {
                     oracle = Err(format!("after op {} ({}): get_energy() = {} (asked again: {}) but the direct sum over edges and biases of the state read back ({}) is {}", k, op, e1, e2, bits(&st), d));
                 }
             }
@@ -1225,6 +1310,7 @@ fn main() {
         "witness-worm" => mode_witness_worm(),
         "regress-imp" => mode_regress_imp(),
         "witness-asym" => mode_witness_asym(),
+        "witness-tiny" => mode_witness_tiny(),
         "regress-noedges" => mode_regress_noedges(),
         m => panic!("unknown mode {}", m),
     }
